@@ -77,7 +77,12 @@ def run(case):
         for step in case.get("history", []):
             try:
                 parser = shared or ProjectFileParser()
-                p = parser.parse(step["text"])
+                if step.get("manual"):
+                    # parsed without scheduling, scheduled by an explicit call
+                    p = parser.parse(step["text"], schedule=False)
+                    p.schedule()
+                else:
+                    p = parser.parse(step["text"])
                 if step.get("report"):
                     observe(p)
                 if step.get("reschedule"):
